@@ -64,7 +64,7 @@ func genProj(r *rng, spare int) *Proj {
 	p := &Proj{Pkgs: allPkgs[:np], Globals: map[string]map[string]int{}, Noise: map[string]int{}, Blank: map[string]int{}, Files: map[string]string{},
 		HelperK: r.below(50), HelperV: r.below(50)}
 	for _, pkg := range p.Pkgs {
-		p.Globals[pkg] = map[string]int{"G0": r.constant(), "G1": r.constant(), "UNUSED": r.below(100), "LA": r.below(50)}
+		p.Globals[pkg] = map[string]int{"G0": r.constant(), "G1": r.constant(), "UNUSED": r.below(100), "LA": r.below(50), "LATE": r.constant()}
 	}
 	// sources per package: two files, one directory (the root package gets a nested one)
 	var srcPool []string
@@ -78,6 +78,10 @@ func genProj(r *rng, spare int) *Proj {
 		p.Dirs = append(p.Dirs, d)
 		for j := 0; j < 1+r.below(3); j++ {
 			p.Files[d+"/"+namePool[j]] = r.text()
+		}
+		if r.chance(35) {
+			// an entry whose name ends in a byte that is not valid UTF-8 (reachable through the directory and through globs)
+			p.Files[d+"/"+[]string{"caf" + rawByte(0xe9), rawByte(0xff)}[r.below(2)]] = r.text()
 		}
 		if pkg == "" && r.chance(50) {
 			p.Dirs = append(p.Dirs, d+"/sub")
@@ -100,9 +104,11 @@ func genProj(r *rng, spare int) *Proj {
 		}
 		if pkg == "" && r.chance(40) {
 			// a source directory with an unusual name, holding entries with unusual names
-			ud := "d é%#"
+			// … or with a name made of glob metacharacters (`[id]` of a file-system router): a listing obtained through a
+			// pattern match on the directory's own path finds nothing there
+			ud := []string{"d é%#", "p[id]"}[r.below(2)]
 			p.Dirs = append(p.Dirs, ud)
-			p.Files[ud+"/"+namePool[8+r.below(len(namePool)-8)]] = r.text()
+			p.Files[ud+"/"+namePool[8+r.below(len(namePool)-11)]] = r.text() // (not the last three names)
 			p.Files[ud+"/a.txt"] = r.text()
 			srcPool = append(srcPool, ud)
 		}
@@ -183,6 +189,8 @@ func genProj(r *rng, spare int) *Proj {
 			t.Dflt = r.constant()
 		case 7:
 			t.Free = r.constant()
+		case 9:
+			t.Global = "LATE" // references a global that is assigned further down in the build file
 		case 8:
 			t.Global = "LISTS" // references the two list globals LA and LB
 		}
@@ -209,6 +217,10 @@ func genProj(r *rng, spare int) *Proj {
 	}
 	if r.chance(15) {
 		p.addFlag(r)
+	}
+	p.addLinks(r)
+	if r.chance(35) {
+		p.addPrefixPair(r)
 	}
 	return p
 }
@@ -398,6 +410,22 @@ func (g *gen) semanticEdit(t *Tgt) bool {
 			return true
 		})
 	}
+	if l := g.p.linkOf(t); l != "" {
+		// the file behind a symbolic link in a source directory changes, or the link is pointed at another file
+		opts = append(opts, func() bool {
+			ref := g.p.Links[l]
+			if r.chance(50) {
+				g.edit(Edit{Kind: "content", Path: ref, Text: g.p.Files[ref] + "edited behind the link\n"})
+			} else {
+				to := "shared-b.cfg"
+				if ref == to {
+					to = "shared-a.cfg"
+				}
+				g.edit(Edit{Kind: "retarget", Path: l, To: to})
+			}
+			return true
+		})
+	}
 	opts = append(opts, func() bool { g.edit(Edit{Kind: "code", Target: t.Label()}); return true })
 	opts = append(opts, func() bool {
 		v := r.constant()
@@ -514,6 +542,14 @@ func (g *gen) noopEdit(root string) {
 		}
 		for _, f := range g.p.sourceFilesOf(t) {
 			usedFiles[f] = true
+		}
+		// a file behind a symbolic link in one of the target's source directories is read as well
+		for l, ref := range g.p.Links {
+			for _, s := range g.p.srcsOf(t) {
+				if strings.HasPrefix(l, s+"/") {
+					usedFiles[ref] = true
+				}
+			}
 		}
 	}
 	var files []string
@@ -700,7 +736,7 @@ func (g *gen) dirEdit(t *Tgt) bool {
 		sort.Strings(inDir)
 		var free []string
 		for _, n := range namePool {
-			if n == "sub" {
+			if n == "sub" || n == "lnk" { // (`lnk` is the name of the symbolic links)
 				continue
 			}
 			if _, ok := g.p.Files[s+"/"+n]; !ok {
@@ -1071,6 +1107,57 @@ func (g *gen) tplSharedSource() {
 	g.add(op)
 }
 
+// tplSharedRevert (C01): two independent targets read one plain source. Edit it, build only B; put the old contents
+// back, build only A (the source's record goes back to the old sum); build B: it last ran against the EDITED contents.
+// A dependent that records a stamp of the source other than the one the source has after its evaluation (one
+// generation behind) finds that stale stamp equal to the present one here.
+func (g *gen) tplSharedRevert() {
+	a, b, s := g.sharedSource()
+	if a == nil {
+		g.tplPartial()
+		return
+	}
+	g.add(g.build(a.Label()))
+	g.add(g.build(b.Label()))
+	orig := g.p.Files[s]
+	g.edit(Edit{Kind: "content", Path: s, Text: orig + "edited, to be reverted\n"})
+	g.add(g.build(b.Label()))
+	if g.r.chance(50) {
+		g.add(g.build(a.Label()))
+	}
+	g.edit(Edit{Kind: "content", Path: s, Text: orig})
+	g.add(g.build(a.Label()))
+	op := g.build(b.Label())
+	op.Note = b.Label() + " last ran against the edited " + s
+	g.add(op)
+}
+
+// tplLinkEdit (C01): a source directory holds a symbolic link; the file behind it changes, or the link is retargeted
+func (g *gen) tplLinkEdit() {
+	for _, i := range g.perm(len(g.p.live())) {
+		t := g.p.live()[i]
+		l := g.p.linkOf(t)
+		if l == "" {
+			continue
+		}
+		root := g.rootOver(t)
+		g.add(g.build(root))
+		ref := g.p.Links[l]
+		if g.r.chance(50) {
+			g.edit(Edit{Kind: "content", Path: ref, Text: g.p.Files[ref] + "edited behind the link\n"})
+		} else {
+			to := "shared-b.cfg"
+			if ref == to {
+				to = "shared-a.cfg"
+			}
+			g.edit(Edit{Kind: "retarget", Path: l, To: to})
+		}
+		g.add(g.build(root))
+		return
+	}
+	g.tplRename()
+}
+
 // tplDelGen: delete a generated file, build a dependent
 func (g *gen) tplDelGen() {
 	t, d := g.chainPick()
@@ -1209,8 +1296,62 @@ func (g *gen) tplGC() {
 	if r.chance(40) {
 		// stray files and directories in .dawn/build/temp
 		g.edit(Edit{Kind: "junktemp", Name: fmt.Sprint(len(g.h.Ops)), Val: 1 + r.below(3)})
+		if r.chance(50) {
+			g.edit(Edit{Kind: "junkwork", Name: fmt.Sprint(len(g.h.Ops))})
+		}
 	}
 	g.add(Op{Kind: "gc", PreferIndex: r.chance(60)})
+}
+
+// addLinks: symbolic links inside source directories (an entry `lnk` pointing to a file outside every source directory,
+// e.g. a configuration shared between packages). Not below a directory that a `d0/**` glob lists file by file.
+func (p *Proj) addLinks(r *rng) {
+	for _, d := range append([]string{}, p.Dirs...) {
+		if strings.HasSuffix(d, "/sub") {
+			continue // only the source directories themselves
+		}
+		if !r.chance(35) {
+			continue
+		}
+		globbed := false
+		for _, t := range p.Tgts {
+			if t.Glob == "d0/**" && pkgPath(t.Pkg, "d0") == d {
+				globbed = true
+			}
+		}
+		if globbed {
+			continue
+		}
+		if _, clash := p.Files[d+"/lnk"]; clash {
+			continue
+		}
+		if p.Links == nil {
+			p.Links = map[string]string{}
+		}
+		for _, ref := range []string{"shared-a.cfg", "shared-b.cfg"} {
+			if _, ok := p.Files[ref]; !ok {
+				p.Files[ref] = r.text()
+			}
+		}
+		p.Links[d+"/lnk"] = "shared-a.cfg"
+	}
+}
+
+// linkOf: a link inside one of t's source directories
+func (p *Proj) linkOf(t *Tgt) string {
+	var ls []string
+	for l := range p.Links {
+		for _, s := range p.srcsOf(t) {
+			if strings.HasPrefix(l, s+"/") {
+				ls = append(ls, l)
+			}
+		}
+	}
+	sort.Strings(ls)
+	if len(ls) == 0 {
+		return ""
+	}
+	return ls[0]
 }
 
 // addFlag: a project whose target names depend on a flag of the root package: some root-package targets are named
@@ -1268,6 +1409,114 @@ func (g *gen) tplGCBroken() {
 	g.add(Op{Kind: "gc", PreferIndex: true, ExpectFail: true, Note: "gc while BUILD.dawn of //" + pkg + " does not parse"})
 	g.edit(Edit{Kind: "unbreak", Path: pkg})
 	g.add(g.build(root))
+}
+
+// addPrefixPair: two targets of one package whose names are a proper prefix of one another (`t3` and `t3_docs`): the
+// record files of such a pair are `…%2Ft3` and `…%2Ft3_docs`
+func (p *Proj) addPrefixPair(r *rng) {
+	for _, x := range p.Tgts {
+		if x.Default || x.FlagNamed || x.Removed || len(p.dependents(x.Label())) > 0 {
+			continue
+		}
+		for _, y := range p.Tgts {
+			if y == x || y.Pkg != x.Pkg || y.FlagNamed || y.Removed || strings.HasPrefix(y.Name, x.Name) {
+				continue
+			}
+			old := y.Label()
+			y.Name = x.Name + "_docs"
+			for _, o := range p.Tgts {
+				for i, d := range o.Deps {
+					if d == old {
+						o.Deps[i] = y.Label()
+					}
+				}
+				for i, d := range o.ReadDep {
+					if d == old {
+						o.ReadDep[i] = y.Label()
+					}
+				}
+			}
+			return
+		}
+	}
+}
+
+// tplGCNoSources (C14): every target loses its sources, so no label of kind `source` is left, then a collection: the
+// records of all the former sources (a whole record directory without a live label) have to go
+func (g *gen) tplGCNoSources() {
+	if g.p.hasGlob() {
+		g.tplGC()
+		return
+	}
+	g.add(g.build(g.p.topRoot()))
+	for _, t := range g.p.live() {
+		for _, s := range append([]string{}, t.Srcs...) {
+			if contains(t.Srcs, s) {
+				g.edit(Edit{Kind: "rmsrc", Target: t.Label(), Path: s})
+			}
+		}
+	}
+	g.add(Op{Kind: "gc", PreferIndex: g.r.chance(50)})
+	g.add(g.build(g.p.topRoot()))
+}
+
+// tplPrefixGC (C14): remove a target whose name is a proper prefix of the name of a target of the same package that
+// stays (`build` next to `build_docs`), collect: the record of the removed one has to go
+func (g *gen) tplPrefixGC() {
+	for _, x := range g.p.live() {
+		if x.Default || len(g.p.dependents(x.Label())) > 0 {
+			continue
+		}
+		for _, y := range g.p.live() {
+			if y != x && y.Pkg == x.Pkg && strings.HasPrefix(y.Name, x.Name) && y.Name != x.Name {
+				g.add(g.build(x.Label()))
+				g.add(g.build(y.Label()))
+				g.edit(Edit{Kind: "rmtarget", Target: x.Label()})
+				g.add(Op{Kind: "gc", PreferIndex: g.r.chance(50)})
+				g.add(g.build(y.Label()))
+				return
+			}
+		}
+	}
+	g.tplGC()
+}
+
+// writeFaultHistories (C03): one build runs under a write fault (every write beyond 16 bytes fails from the end of
+// the load to the end of the Run: a full disk, a quota, a file size limit); afterwards, in a fresh process without the
+// fault, the state loads and the build converges to the from-scratch outputs. Judge-only (the model has no such fault).
+func writeFaultHistories(r *rng, n int) []*History {
+	var out []*History
+	for tries := 0; len(out) < n && tries < 10*n; tries++ {
+		p := genProj(r, 0)
+		g := &gen{r: r, p: p.clone(), h: &History{Proj: p, JudgeOnly: true}, collected: map[string]bool{}}
+		t, d := g.chainPick()
+		if t == nil || len(t.Gens) == 0 || t.Always {
+			continue
+		}
+		root := g.rootOver(d)
+		if len(alwaysDownstream(g.p, root)) > 0 {
+			continue
+		}
+		g.add(g.build(root))
+		if len(out)%2 == 0 {
+			g.h.Template = "C03 write fault while results are recorded: edit, build under the fault, build"
+			g.semanticEdit(t)
+		} else {
+			g.h.Template = "C03 write fault around a body that half-writes its output: delete the generated file, build under the fault, build"
+			g.edit(Edit{Kind: "delgen", Path: t.Gens[0]})
+		}
+		f := g.build(root)
+		f.Unpinned = false
+		f.WriteLimit = 16
+		f.Note = "every write beyond 16 bytes fails (EFBIG) from the end of the load to the end of the run"
+		g.add(f)
+		g.add(g.build(root))
+		if r.chance(50) {
+			g.add(g.build(root))
+		}
+		out = append(out, g.h)
+	}
+	return out
 }
 
 // tplStaleIndexGC (C14, D22): remove a built target, let a full load rewrite the index without it, put the target back,
@@ -1366,10 +1615,14 @@ func genHistory(r *rng, prop string, nops int) *History {
 				g.tplCrashInBody()
 			case x < 46:
 				g.tplCrashBystander()
-			case x < 54:
+			case x < 52:
 				g.tplDelGen()
-			case x < 62:
+			case x < 57:
 				g.tplRename()
+			case x < 60:
+				g.tplLinkEdit()
+			case x < 63:
+				g.tplSharedRevert()
 			case x < 80:
 				g.uniformEdit()
 			case x < 84:
@@ -1424,10 +1677,14 @@ func genHistory(r *rng, prop string, nops int) *History {
 			}
 		case "C14":
 			switch {
-			case x < 7:
+			case x < 6:
 				g.tplStaleIndexGC()
-			case x < 14:
+			case x < 12:
 				g.tplGCBroken()
+			case x < 17:
+				g.tplPrefixGC()
+			case x < 20:
+				g.tplGCNoSources()
 			case x < 35:
 				g.tplGC()
 			case x < 40:
